@@ -12,6 +12,10 @@ FSM_FILE = 'yabgp/core/fsm.py'
 
 
 def check(prog, rep, tier):
+    rep.rule('R01.g', 'the error handlers of parse_buffer read e.sub_error of the exception a decoder raised: every exception of '
+                      'the NotificationSent family carries it (rule shared with C11 R11.d)')
+    from .c11 import exception_carries_fields
+    exception_carries_fields(prog, rep, 'R01.g')
     rep.rule('R01.a', 'every (event, state) cell of the extracted reaction table conforms to the '
                       'RFC 4271 8.2.2 profile (messages, close, next state)')
     rep.rule('R01.b', 'wire dispatch: each input class of BGP.parse_buffer raises the matching FSM '
